@@ -19,7 +19,15 @@ P = 'PydlVerif.C20.'
 THEOREMS = [P + 'restores_sound', P + 'other_vars_untouched', P + 'restores_only_touches',
             # round-5 extension: what the IR terms chosen for the newly read idioms do, for all states
             P + 'pop_idiom_set', P + 'pop_idiom_unset', P + 'pop_default_idiom',
-            P + 'setdefault_idiom_set', P + 'setdefault_idiom_unset']
+            P + 'setdefault_idiom_set', P + 'setdefault_idiom_unset',
+            # extension round 2: semantic compositionality (Restoring), monotonicity in the declared set, exactness of the
+            # checker on straight-line save / clobber programs and a witness that it is not exact beyond
+            P + 'restores_restoring', P + 'neutral_restoring', P + 'restoring_seq', P + 'restoring_tryFinally',
+            P + 'restoring_tryExcept', P + 'restoring_choice', P + 'restoring_ifNone', P + 'restoring_ifSet',
+            P + 'restoring_loop', P + 'restoring_scope', P + 'restores_seq', P + 'restores_tryFinally_neutral',
+            P + 'restores_mono', P + 'restores_iff_writes', P + 'ana_straight', P + 'run_straight',
+            P + 'restores_exact_straight', P + 'checker_incomplete_witness',
+            P + 'guard_finally_restores', P + 'guard_idiom_restoring']
 GEN_MODULE = 'PydlVerif.Gen.C20Progs'
 GEN_NS = 'PydlVerif.Gen.C20.'
 PROGS = [
@@ -35,7 +43,13 @@ RULE = ('fault schedules: for each target function, each stub variant (rescore; 
         'helper called from there, the statements that only touch os.environ and locals and the heads around them; plus '
         'the restore statements of the IR), and at the k-th collaborator call for every k; exception '
         'classes InjectedFault plus those named by the except clauses; two-call sequences (first call failing at a sampled '
-        'point, variables changed in between). The module is re-executed before every plan / sequence. '
+        'point, variables changed in between); ordered pairs (entry point A failing at a, then entry point B failing at b: '
+        'window_score and template_input twice and in both mixed orders, b a line event or a collaborator call, second '
+        'entry state fresh / unset / the versions the file names; thorough: full product when window_score is first, 120 first-call points of template_input x all of window_score, 30 x 30 for template_input twice); '
+        'template_input with the REAL readspec / spec_path on a synthetic survey tree (C16 tree builder; photoPlate present / '
+        'absent x SPECTRO_MATCH x PHOTO_RESOLVE set / unset, BOSS_SPECTRO_REDUX unset) with faults at the line events inside '
+        'readspec as well; random straight-line save / pop programs for the exactness theorem. '
+        'The module is re-executed before every plan / sequence. '
         'Non-trivial = the call reaches the first environment write or fails; distinct = distinct (function, variant, initial '
         'state, injection | sequence) payloads')
 TRUSTED = ['AST translator harness/xlate/c20_envir.py (about 2000 lines of Python incl. the restore-code recogniser): which constructs are environment effects '
@@ -51,6 +65,12 @@ TRUSTED = ['AST translator harness/xlate/c20_envir.py (about 2000 lines of Pytho
            'a module-level constant is not rebound or mutated from another module (the translator sees one file)',
            'IR semantics claim: code outside the translated functions (and their inlined callees) does not write os.environ; '
            'checked syntactically by a census of os.environ writers in the package',
+           'extension round 2: same-module stages that only read os.environ (readspec, spec_path, number_of_fibers) are inlined '
+           'in a second generated program (templateInputDeep) whose restores-theorem is re-proved each run and which is compared '
+           'with the real readspec on a synthetic survey tree; every other in-package callee reachable by plain-name calls through '
+           'the imports (visited set, depth limit 8) is classified syntactically (writes / reads / neutral) by the transitive '
+           'census obligation - cross-module callees are not inlined, method calls on objects and callees outside the package '
+           'are not followed',
            'sys.monitoring LINE-event injection and unittest.mock stubs stand for failures of collaborators']
 ASSUMPTIONS = ['asynchronous exceptions (KeyboardInterrupt, MemoryError between two bytecodes of a restore statement, of an '
                '__exit__ that only restores, of a helper that only reads/writes os.environ) are outside the statement, and so is '
@@ -73,11 +93,23 @@ LEVEL_TEXT = ('Machine-checked Lean 4 theorem restores_sound: every program of t
               'what the IR terms used for them do) - and `restores <prog> <vars> = true` is re-proved by `decide`. The real '
               'functions are run under exhaustive line-level and collaborator-level fault injection for every initial state '
               '(set / unset / empty) and in two-call sequences; os.environ before == after is checked directly, and the IR '
-              'semantics is run under the same schedule and compared.')
+              'semantics is run under the same schedule and compared. Extension round 2: the statement per program (Restoring) '
+              'is proved closed under seq / tryFinally / tryExcept / choice / ifNone / ifSet / loop / scope, so two accepted '
+              'programs run one after the other restore (restores_seq: the theorem behind the two-call and ordered-pair '
+              'streams); the checker is monotone in the declared set and depends on it only through writes p (restores_mono, '
+              'restores_iff_writes); on straight-line save / pop programs it is exact (restores_exact_straight), and a witness '
+              'shows it is not exact for an unguarded restore (checker_incomplete_witness). A second generated program inlines '
+              'the reading stage (readspec, spec_path, number_of_fibers) as well, its restores-theorem is re-proved each run, '
+              'and template_input is run with the REAL readspec on a synthetic survey tree with faults injected inside it; all '
+              'ordered pairs (entry point, fault) x (entry point, fault) are run in one process.')
 LEVEL_NOTE = ('Trusted / not proved: the translator (Python) and the reading of Python semantics built into it (what may raise, '
               'what writes the environment, inlining and binding rules) - sampled by the fault-injection correspondence and the '
-              'snippet self-tests, not verified; callees outside the module are assumed not to write os.environ (syntactic census of '
-              'the package only); asynchronous exceptions, failures of the restore statements themselves and threads are out of '
+              'snippet self-tests, not verified; same-module callees that touch os.environ are part of the IR (writers always, '
+              'read-only stages in the Deep program); other in-package callees reachable by plain-name calls are classified '
+              'syntactically by the transitive census (a writer among them breaks an obligation; it is not inlined across modules); '
+              'method calls on objects and callees outside the package are assumed not to write os.environ; compositionality is '
+              'proved for the semantics (Restoring), not for the checker (its loop rule is not monotone in the entry state); '
+              'exactness of the checker is proved only for straight-line save / pop programs (no restore statement); asynchronous exceptions, failures of the restore statements themselves and threads are out of '
               'scope (exceptions are injected only at fault points of the IR outside restore code, and never at a line that the '
               'syntactic recogniser classifies as restore code - so a failed or partial translation of a harmless change ends as a '
               'broken obligation without a claimed failing input); break/continue, other generators, return inside a '
@@ -102,6 +134,28 @@ def translate_all(ctx):
             tr, ir, unsup = None, ['fault', 0], [{'func': p['func'], 'line': 0, 'msg': 'cannot parse: %s' % e}]
         out.append(dict(p, ir=ir, tr=tr, unsupported=unsup, source='%s:%s' % (p['file'], p['func']),
                         meta=tr.meta if tr else {}))
+    return out
+
+
+def translate_deep_all(ctx, progs):
+    """extension round: a second program per entry point in which the same-module stages that only READ os.environ
+    (readspec, spec_path, number_of_fibers, ...) are inlined as scopes too, so that `<prog>Deep_restores` speaks about the
+    entry point including them instead of relying on the census; compared with the real code in the real-readspec stream"""
+    out = []
+    for p in progs:
+        if not p['tr']:
+            continue
+        try:
+            tr, ir, deep, gave_up = X.translate_deep(core.REPO / p['file'], p['func'])
+        except (SyntaxError, OSError, RecursionError) as e:
+            ctx.notes.append('%s: deep translation not possible (%s); the read-only stages stay a census assumption' % (p['func'], e))
+            continue
+        ctx.coverage['deep:%s:read-only stages inlined into the IR' % p['func']] = list(deep)
+        ctx.coverage['deep:%s:given up (outside the translatable fragment; census assumption)' % p['func']] = list(gave_up)
+        if not deep:
+            continue
+        out.append(dict(p, name=p['name'] + 'Deep', ir=ir, tr=tr, unsupported=list(tr.unsupported),
+                        source='%s:%s with %s inlined' % (p['file'], p['func'], ', '.join(deep)), meta=tr.meta, deep=deep))
     return out
 
 
@@ -130,6 +184,25 @@ def census(ctx, progs):
     if others:
         ctx.notes.append('other os.environ writers in the package, not called from the targets: %s' % others)
     ctx.oblige('census: callees of the translated functions do not write os.environ', not bad, 'gen-census', '\n'.join(bad))
+    # extension round: the same claim, transitively and through the imports - every function defined inside the package
+    # that is reachable from an entry point by calls by name (visited set, depth limit) is either part of the IR (inlined
+    # as a scope, so `<prog>_restores` speaks about it) or does not write os.environ (its environment effect is a
+    # look-up that may fail = the fault point of the call statement)
+    for p in progs:
+        rows, cut = X.transitive_callees(core.REPO / 'pydl', p['file'][len('pydl/'):], p['func'],
+                                         p['tr'].inlined if p['tr'] else ())
+        p['callees'] = rows
+        for r in rows:
+            ctx.count('callees:%s:%s' % (p['func'], r['effect']))
+        ctx.count('callees:%s:max-depth' % p['func'], max([r['depth'] for r in rows] or [0]))
+        readers = ['%s:%s%s' % (r['file'], r['func'], r['reads']) for r in rows if r['effect'] == 'reads']
+        ctx.coverage['callees:%s:read-only (IR: fault point of the call)' % p['func']] = readers
+        ctx.coverage['callees:%s:in the IR' % p['func']] = ['%s:%s' % (r['file'], r['func']) for r in rows if r['effect'] == 'translated']
+        w = ['%s (%s), reached through %s at depth %d, writes os.environ and is not part of the IR' % (r['func'], r['file'], r['via'], r['depth'])
+             for r in rows if r['effect'] == 'writes']
+        w += ['depth limit reached at %s: its callees were not followed' % c for c in cut]
+        ctx.oblige('census (transitive, through imports): every in-package callee of %s is in the IR or does not write os.environ' % p['func'],
+                   not w, 'gen-census', '\n'.join(w))
 
 
 def nodes_of(p):
@@ -244,6 +317,14 @@ class Index:
         self.meta = {int(k): v for k, v in p['meta'].items()}
         self.present = {n[1] if n[0] == 'fault' else None for n in X.walk_ir(p['ir'])}
         self.faults = [(i, m) for i, m in sorted(self.meta.items()) if m['kind'] == 'fault' and i in self.present]
+        # copies of an inlined helper: how many there are, and the call statements they were inlined at (in order)
+        self.copies, self.callsites = {}, {}
+        for i, m in sorted(self.meta.items()):
+            if 'round' in m:
+                key = (m['round'][0], m['round'][1])
+                self.copies[key] = max(self.copies.get(key, 0), m['round'][2])
+            if m['kind'] == 'fault' and m.get('call'):
+                self.callsites.setdefault(m['call'], []).append((m['func'], m['line'], m['end']))
         self.vars = sorted({n[2] if n[0] in ('save', 'load') else n[1] for n in X.walk_ir(p['ir'])
                             if n[0] in ('need', 'save', 'load', 'del', 'pop', 'setExpr', 'setFrom', 'ifSet')})
         # restore code, as (function, line) pairs: recognised syntactically on the source (works without an IR, or
@@ -283,6 +364,20 @@ class Index:
             return 0, len(ev)
         rfunc, fbl, serial = m['round']
         pos = [k for k, e in enumerate(ev) if e == (rfunc, fbl)]
+        ncopies = self.copies.get((rfunc, fbl), 0)
+        sites = self.callsites.get(rfunc, [])
+        if len(pos) < ncopies and len(sites) == ncopies and len(set(sites)) == ncopies and serial <= ncopies:
+            # fewer visits than copies: some copy was not executed (calls of one helper in exclusive branches, e.g. the two
+            # readspec calls of template_input) - the copy of a visit is the one whose call statement was the last line
+            # event of another function in front of it
+            for j, k in enumerate(pos):
+                q = k - 1
+                while q >= 0 and ev[q][0] == rfunc:
+                    q -= 1
+                if q >= 0 and any(f == ev[q][0] and a <= ev[q][1] <= b for f, a, b in [sites[serial - 1]]) \
+                        and not any(f == ev[q][0] and a <= ev[q][1] <= b for n_, (f, a, b) in enumerate(sites) if n_ != serial - 1):
+                    return k, (pos[j + 1] if j + 1 < len(pos) else len(ev))
+            return 0, 0
         if serial > len(pos):
             return 0, 0
         return pos[serial - 1], (pos[serial] if serial < len(pos) else len(ev))
@@ -301,6 +396,13 @@ class Index:
         T = set()
         for o in run.origins:
             f = self.fault_for(ev, o)
+            if f is None:
+                # raised inside a callee that is not part of the IR (the real readspec and its callees): the fault point
+                # of the innermost call statement the IR does contain
+                for via in o.get('via', []):
+                    f = self.fault_for(ev, dict(o, func=via['func'], line=via['line']))
+                    if f is not None:
+                        break
             if f is not None:
                 T.add(f)
         for i, m in self.meta.items():
@@ -466,7 +568,7 @@ class Stream:
                 '%s:other-variable-touched:%s' % (p['func'], '+'.join(outside))
             if 'seq' in case:
                 sig += ':after-earlier-call'
-            where = run.origins[-1] if run.origins else None
+            where = {k: v for k, v in run.origins[-1].items() if k != 'exc_id'} if run.origins else None
             ctx.violate(sig, 'os.environ after the call differs from before: %s; outcome %s; last exception raised at %s' % (
                 res['diff'], res['outcome'], where), case)
         # correspondence with the IR semantics
@@ -617,6 +719,348 @@ def injections(ctx, progs):
     ctx.count('injection:seconds', round(time.time() - t0, 1))
 
 
+def _real_worker(args):
+    """one plan of the real-readspec stream: (configuration of the survey tree, object, entry state of RUN2D / RUN1D)"""
+    n, variant, init, seed = args
+    from harness.props import c20_real as R
+    p = _W['real_prog']
+    thorough = _W['tier'] == 'thorough'
+    inl = set(p['tr'].inlined if p['tr'] else ()) | set(R.REAL_FUNCS)
+    conf = variant['real_readspec']
+    ctx = MiniCtx(_W['tier'], seed, os.path.join(_W['tmp'], 'real-%d' % n))
+    rng = ctx.rng
+    try:
+        R.MON.start(R.codes_for('template_input', inl, reload=True))
+        st = Stream(ctx, p)
+        res0, run0 = st.one(variant, init, None)
+        ctx.count('real-readspec:photoPlate=%s:SPECTRO_MATCH=%s:PHOTO_RESOLVE=%s:fault-free:%s' % (
+            conf['photo'], conf['match'], conf['resolve'], res0['outcome']))
+        inside, own = [], []
+        for k, (func, line) in enumerate(run0.events):
+            what = st.idx.injectable(run0.events, k)
+            if what == 'inject':
+                (inside if func in R.REAL_FUNCS else own).append({'mode': 'line', 'k': k, 'at': [func, line]})
+            elif what == 'nofault' and func in R.REAL_FUNCS and not st.idx.fault_ids(func, line) \
+                    and func not in (p['tr'].inlined if p['tr'] else ()):
+                inside.append({'mode': 'line', 'k': k, 'at': [func, line]})
+        ctx.count('real-readspec:line-events-inside-readspec/spec_path', len(inside))
+        calls = [{'mode': 'call', 'k': k} for k in range(len(run0.calls))]
+        if not thorough:
+            inside = rng.sample(inside, min(len(inside), 10))
+            own = rng.sample(own, min(len(own), 3))
+            calls = rng.sample(calls, min(len(calls), 4))
+        else:
+            own = rng.sample(own, min(len(own), 30))      # template_input's own points are swept by the stubbed stream
+        for pt in inside + own + calls:
+            res, _ = st.one(variant, init, dict({k: v for k, v in pt.items() if k != 'at'}, exc='InjectedFault'),
+                            expect=pt.get('at'))
+            where = 'call' if pt['mode'] == 'call' else ('in-readspec' if pt in inside else 'in-template_input')
+            ctx.count('real-readspec:inject:%s:%s' % (where, res['outcome'].split(':')[0]))
+        st.flush()
+    except core.DriverError as e:
+        return {'driver_error': str(e)}
+    return {'cases': ctx.cases, 'coverage': ctx.coverage, 'violations': ctx.violations, 'disagreements': ctx.disagreements}
+
+
+def real_readspec(ctx, progs, deeps=()):
+    """template_input with the REAL readspec (and spec_path) on a small synthetic survey tree written by the C16 tree
+    builder: fault-free, an exception at the k-th LINE event inside readspec / spec_path (every fault point there: none of it
+    is restore code), at the IR's fault points of template_input, and at the k-th collaborator call
+    (fits.open of the spPlate / photoPlate / spZbest files included).  Oracle: the complete environment before == after."""
+    from harness.props import c20_real as R
+    rng = ctx.rng
+    p = [q for q in list(deeps) + list(progs) if q['func'] == 'template_input']
+    if not p:
+        return
+    p = p[0]            # the deep program (readspec, spec_path, number_of_fibers inlined) when there is one
+    ctx.count('real-readspec:compared-with:' + p['name'])
+    thorough = ctx.tier == 'thorough'
+    confs = []
+    for photo in (True, False):
+        for match in (True, False):
+            for resolve in (True, False):
+                confs.append({'photo': photo, 'redux': True, 'match': match, 'resolve': resolve})
+    confs.append({'photo': True, 'redux': False, 'match': True, 'resolve': True})     # BOSS_SPECTRO_REDUX missing: spec_path fails
+    jobs = []
+    kinds = [(True, True), (False, False), (True, False), (False, True)]
+    for n, conf in enumerate(confs):
+        for obj in (('gal', 'star') if thorough or n in (0, 5) else ('gal',)):
+            ks = [kinds[(n + (obj == 'star')) % 4]] + ([kinds[(n + 2 + (obj == 'star')) % 4]] if thorough else [])
+            for r2, r1 in ks:
+                variant = {'object': obj, 'method': 'pca', 'real_readspec': conf}
+                init = {'RUN2D': rand_value(rng, 'run2d') if r2 else None, 'RUN1D': rand_value(rng, 'run1d') if r1 else None}
+                jobs.append((len(jobs), variant, init, rng.getrandbits(64)))
+    _W.update(real_prog=p, tier=ctx.tier, tmp=ctx.tmpdir())
+    t0 = time.time()
+    if thorough:
+        import multiprocessing
+        with multiprocessing.get_context('fork').Pool(min(8, os.cpu_count() or 1)) as pool:
+            outs = pool.map(_real_worker, jobs, chunksize=1)
+    else:
+        try:
+            outs = [_real_worker(j) for j in jobs]
+        finally:
+            R.MON.stop()
+    for o in outs:
+        if 'driver_error' in o:
+            raise core.DriverError(o['driver_error'])
+        for case, nontrivial in o['cases']:
+            ctx.seen(case, nontrivial)
+        for k, v in o['coverage'].items():
+            ctx.count(k, v)
+        ctx.violations.extend(o['violations'])
+        ctx.disagreements.extend(o['disagreements'])
+    ctx.count('real-readspec:seconds', round(time.time() - t0, 1))
+
+
+# ---------------------------------------------------------------- ordered pairs of calls of the two entry points (extension round)
+PAIR_VARIANT = {'window_score': {'rescore': False}, 'template_input': {'object': 'gal', 'method': 'pca'}}
+
+
+def _pair_state(rng, p, kind):
+    """entry state of one call: every touched variable set (fresh random values) / unset; 'named' (template_input): RUN2D and
+    RUN1D are already what the parameter file names"""
+    if kind == 'named':
+        return {'RUN2D': 'v5_7_0', 'RUN1D': 'v5_7_2'}
+    st = {v: (rand_value(rng, v) if kind == 'set' else None) for v in p['vars']}
+    if p['func'] == 'window_score':
+        st['PHOTO_RESOLVE'] = rand_value(rng, 'resolve')
+    return st
+
+
+def _pair_points(mc, p, kind):
+    """fault points of a single fault-free call in the given entry state: None, every injectable line event, every
+    collaborator call"""
+    from harness.props import c20_real as R
+    R.MON.start(R.codes_for(p['func'], p['tr'].inlined if p['tr'] else (), reload=True))
+    st = Stream(MiniCtx(mc.tier, 0, mc.tmpdir()), p)
+    res0, run0 = st.one(PAIR_VARIANT[p['func']], _pair_state(mc.rng, p, kind), None)
+    pts = [None]
+    for k, (func, line) in enumerate(run0.events):
+        if st.idx.injectable(run0.events, k) == 'inject':
+            pts.append({'mode': 'line', 'k': k, 'exc': 'InjectedFault', 'at': [func, line]})
+    pts += [{'mode': 'call', 'k': k, 'exc': 'InjectedFault'} for k in range(len(run0.calls))]
+    return pts
+
+
+def _pair_worker(args):
+    """a chunk of two-call sequences (entry point A failing at a, then entry point B failing at b); the modules of both
+    entry points are re-executed in front of every sequence, so each sequence is a self-contained input"""
+    jobs, seed, n = args
+    from harness.props import c20_real as R
+    progs = _W['progs']
+    mc = MiniCtx(_W['tier'], seed, os.path.join(_W['tmp'], 'pairs-%d' % n))
+    by = {p['func']: p for p in progs}
+    streams = {f: Stream(mc, q) for f, q in by.items()}
+    try:
+        for fa, ka, a, fb, kb, b in jobs:
+            seqn = [(fa, PAIR_VARIANT[fa], _pair_state(mc.rng, by[fa], ka), a), (fb, PAIR_VARIANT[fb], _pair_state(mc.rng, by[fb], kb), b)]
+            run_mixed(mc, streams, by, seqn)
+        for st in streams.values():
+            st.flush()
+    except core.DriverError as e:
+        return {'driver_error': str(e)}
+    return {'cases': mc.cases, 'coverage': mc.coverage, 'violations': mc.violations, 'disagreements': mc.disagreements}
+
+
+def run_mixed(ctx, streams, by, seqn):
+    """seqn: [(entry point, variant, entry state, injection or None)], run in one process without re-executing the modules in
+    between; the environment oracle judges every call, the IR of each entry point is compared for each call"""
+    from harness.props import c20_real as R
+    codes = []
+    for f in dict.fromkeys(f for f, _, _, _ in seqn):
+        codes += R.codes_for(f, by[f]['tr'].inlined if by[f]['tr'] else (), reload=True)
+    R.MON.start(codes)
+    cases = [{'func': f, 'variant': v, 'init': i, 'inject': ({k: x for k, x in j.items() if k != 'at'} if j else None)}
+             for f, v, i, j in seqn]
+    res = None
+    for k, (f, v, i, j) in enumerate(seqn):
+        st = streams[f]
+        st.history = cases[:k]
+        try:
+            res, _ = st.one(v, i, cases[k]['inject'], expect=(j or {}).get('at'))
+        finally:
+            st.history = None
+        ctx.count('pairs:%s-then-%s:call-%d:%s' % (seqn[0][0], seqn[-1][0], k + 1, res['outcome'].split(':')[0]))
+    return res
+
+
+def pairs(ctx, progs):
+    """ordered pairs (entry point, fault point) x (entry point, fault point): window_score twice, template_input twice,
+    one after the other in both orders; the fault of the second call may be a line event or a collaborator call; the second
+    call starts from what the first one left, overwritten by fresh values / unset / (template_input) the values the
+    parameter file names.  quick: samples; thorough: the full product when window_score comes first, 120 first-call points
+    of template_input x every point of window_score, 30 x 30 for template_input twice"""
+    from harness.props import c20_real as R
+    if len(progs) < 2 or not all(q['tr'] for q in progs):
+        return
+    rng = ctx.rng
+    thorough = ctx.tier == 'thorough'
+    _W.update(progs=progs, tier=ctx.tier, tmp=ctx.tmpdir())
+    mc = MiniCtx(ctx.tier, rng.getrandbits(64), os.path.join(ctx.tmpdir(), 'pairs-points'))
+    t0 = time.time()
+    try:
+        pts = {}
+        for q in progs:
+            for kind in ('set', 'unset') + (('named',) if q['func'] == 'template_input' else ()):
+                pts[(q['func'], kind)] = _pair_points(mc, q, kind)
+                ctx.count('pairs:fault-points:%s:%s' % (q['func'], kind), len(pts[(q['func'], kind)]))
+    finally:
+        R.MON.stop()
+    jobs = []
+    for qa in progs:
+        for qb in progs:
+            fa, fb = qa['func'], qb['func']
+            kinds_b = ('set', 'unset') + (('named',) if fb == 'template_input' else ())
+            A = pts[(fa, 'set')]
+            if thorough:
+                na = 30 if (fa == fb == 'template_input') else (120 if fa == 'template_input' else len(A))
+            else:
+                na = 3
+            As = [None] + (A[1:] if na >= len(A) - 1 else rng.sample(A[1:], na))
+            for a in As:
+                for kb in kinds_b:
+                    B = pts[(fb, kb)]
+                    if thorough:
+                        nb = (30 if (fa == fb == 'template_input') else len(B)) if kb == 'set' else 12
+                    else:
+                        nb = 2
+                    Bs = [None] + (B[1:] if nb >= len(B) - 1 else rng.sample(B[1:], nb))
+                    for b in Bs:
+                        jobs.append((fa, 'set', a, fb, kb, b))
+    ctx.count('pairs:sequences', len(jobs))
+    nchunk = 32 if thorough else 1
+    chunks = [(jobs[i::nchunk], rng.getrandbits(64), i) for i in range(nchunk)]
+    if thorough:
+        import multiprocessing
+        with multiprocessing.get_context('fork').Pool(min(8, os.cpu_count() or 1)) as pool:
+            outs = pool.map(_pair_worker, chunks, chunksize=1)
+    else:
+        try:
+            outs = [_pair_worker(c) for c in chunks]
+        finally:
+            R.MON.stop()
+    for o in outs:
+        if 'driver_error' in o:
+            raise core.DriverError(o['driver_error'])
+        for case, nontrivial in o['cases']:
+            ctx.seen(case, nontrivial)
+        for k, v in o['coverage'].items():
+            ctx.count(k, v)
+        ctx.violations.extend(o['violations'])
+        ctx.disagreements.extend(o['disagreements'])
+    ctx.count('pairs:seconds', round(time.time() - t0, 1))
+
+
+def exact_fragment(ctx):
+    """restores_exact_straight / restores_mono on the executable checker: random straight-line programs over
+    `x = os.environ.get(v)` and `os.environ.pop(v, None)`; an independent simulation (Python dict) says whether every
+    variable comes back for the all-set initial state; the checker (driver op `check`) must accept exactly the programs that
+    pop nothing, for the least declared set and for every superset, and reject for a set that misses a written variable;
+    the IR semantics (driver op `runs`) must end with the simulated environment"""
+    rng = ctx.rng
+    names, locs = ['A', 'B', 'C'], ['x', 'y']
+    progs_, lines = [], []
+    for _ in range(ctx.n(40, 400)):
+        atoms = []
+        for _ in range(rng.randrange(0, 7)):
+            atoms.append(['save', rng.choice(locs), rng.choice(names)] if rng.random() < 0.6 else ['pop', rng.choice(names)])
+        ir = ['skip']
+        for a in reversed(atoms):
+            ir = ['seq', a, ir]
+        popped = [a[1] for a in atoms if a[0] == 'pop']
+        least = sorted(set(popped))
+        extra = sorted(set(least) | set(rng.sample(names, rng.randrange(0, 3))))
+        progs_.append((atoms, ir, popped, least, extra))
+        lines.append({'p': 'C20', 'op': 'check', 'prog': ir, 'vars': least})
+        lines.append({'p': 'C20', 'op': 'check', 'prog': ir, 'vars': extra})
+        lines.append({'p': 'C20', 'op': 'check', 'prog': ir, 'vars': least[1:]})
+        lines.append({'p': 'C20', 'op': 'runs', 'prog': ir, 'vars': names,
+                      'cases': [{'env': [[v, '/' + v.lower()] for v in names], 'oracle': {'T': [], 'iters': []}}]})
+    outs = core.driver(lines)
+    for k, (atoms, ir, popped, least, extra) in enumerate(progs_):
+        o1, o2, o3, o4 = outs[4 * k:4 * k + 4]
+        case = {'stream': 'exact-fragment', 'atoms': atoms}
+        ctx.seen(case, bool(atoms))
+        ctx.count('exact-fragment:%s' % ('pops' if popped else 'no-pop'))
+        env = {v: '/' + v.lower() for v in names}
+        for a in atoms:                       # independent simulation
+            if a[0] == 'pop':
+                env.pop(a[1], None)
+        restoring = all(env.get(v) == '/' + v.lower() for v in names)
+        bad = [o for o in (o1, o2, o3, o4) if isinstance(o, dict) and 'driver_error' in o]
+        if bad:
+            raise core.DriverError(bad[0]['driver_error'])
+        model = {'least': o1['restores'], 'superset': o2['restores'], 'missing-one': o3['restores'],
+                 'env': {v: val for v, val in o4[0]['env']}, 'outcome': o4[0]['outcome']}
+        want = {'least': restoring, 'superset': restoring, 'missing-one': restoring and not least,
+                'env': {v: env.get(v) for v in names}, 'outcome': 'ok'}
+        if model != want:
+            ctx.disagree('exact-fragment', case, want, model)
+
+
+def guard_idiom(ctx):
+    """guard_idiom_restoring on the executable semantics: `x = os.environ.get(A); try: <random body> finally: (pop A if x is None
+    else os.environ[A] = x)` with random bodies (faults, writes / pops / dels of A, look-ups of B, branches, loops, return, raise,
+    handlers; no write of another variable, no binding of x) under random oracles (which points raise / which branches are
+    taken, loop counts, opaque values None / not a string) from A set / unset: driver op `runs` must end with the initial
+    environment; the checker's verdict on the same term is recorded (it may reject: it is sound, not complete)"""
+    rng = ctx.rng
+    nid = [0]
+
+    def fresh():
+        nid[0] += 1
+        return nid[0]
+
+    def body(d):
+        r = rng.random()
+        if d <= 0 or r < 0.35:
+            return rng.choice([['fault', fresh()], ['setExpr', 'A', fresh()], ['pop', 'A'], ['del', 'A'], ['need', 'B'], ['need', 'A'],
+                               ['ret'], ['raise'], ['skip'], ['save', 'y', 'A'], ['setFrom', 'A', 'y'], ['kill', 'y', fresh()]])
+        if r < 0.65:
+            return ['seq', body(d - 1), body(d - 1)]
+        if r < 0.75:
+            return ['choice', fresh(), body(d - 1), body(d - 1)]
+        if r < 0.82:
+            return ['loop', fresh(), body(d - 1)]
+        if r < 0.88:
+            return ['tryExcept', fresh(), body(d - 1), body(d - 1)]
+        if r < 0.93:
+            return ['tryFinally', body(d - 1), body(d - 1)]
+        if r < 0.97:
+            return ['ifSet', 'A', body(d - 1), body(d - 1)]
+        return ['scope', body(d - 1)]
+    lines, metas = [], []
+    for _ in range(ctx.n(40, 600)):
+        nid[0] = 0
+        b = body(rng.randrange(1, 5))
+        ir = ['seq', ['save', 'x', 'A'], ['tryFinally', b, ['ifNone', 'x', ['pop', 'A'], ['setFrom', 'A', 'x']]]]
+        cases = []
+        for _ in range(4):
+            ids = list(range(1, nid[0] + 1))
+            orc = {'T': sorted(rng.sample(ids, rng.randrange(0, len(ids) + 1))), 'iters': [[i, rng.randrange(0, 4)] for i in ids],
+                   'none': sorted(rng.sample(ids, rng.randrange(0, len(ids) + 1)) if rng.random() < 0.3 else []),
+                   'other': sorted(rng.sample(ids, rng.randrange(0, len(ids) + 1)) if rng.random() < 0.3 else [])}
+            env = [['A', rng.choice(['/a', '', None])], ['B', rng.choice(['/b', None])]]
+            cases.append({'env': env, 'oracle': orc})
+        lines.append({'p': 'C20', 'op': 'runs', 'prog': ir, 'vars': ['A', 'B'], 'cases': cases})
+        lines.append({'p': 'C20', 'op': 'check', 'prog': ir, 'vars': ['A']})
+        metas.append((ir, cases))
+    outs = core.driver(lines)
+    for k, (ir, cases) in enumerate(metas):
+        o1, o2 = outs[2 * k], outs[2 * k + 1]
+        for o in (o1, o2):
+            if isinstance(o, dict) and 'driver_error' in o:
+                raise core.DriverError(o['driver_error'])
+        ctx.count('guard-idiom:checker-%s' % ('accepts' if o2['restores'] else 'rejects'))
+        for c, r in zip(cases, o1):
+            case = {'stream': 'guard-idiom', 'prog': ir, 'env': c['env'], 'oracle': c['oracle']}
+            ctx.seen(case)
+            ctx.count('guard-idiom:outcome:%s' % r['outcome'])
+            if [list(e) for e in r['env']] != [list(e) for e in c['env']]:
+                ctx.disagree('guard-idiom', case, {'env': c['env']}, {'env': r['env'], 'outcome': r['outcome']})
+
+
 def sequences(ctx, progs):
     """two calls in one process: the first fails somewhere (or not), the touched variables are then changed
     by the caller, the second call must restore what IT found.  The module is re-executed before each
@@ -675,17 +1119,22 @@ def run_sequence(ctx, st, p, seqn):
 def run(ctx):
     progs = translate_all(ctx)
     census(ctx, progs)
-    gen_ok = generate(ctx, progs)
+    deeps = translate_deep_all(ctx, progs)
+    gen_ok = generate(ctx, progs + deeps)
     core.audit(ctx, LEAN_MODULES, THEOREMS)
     if ctx.tier == 'thorough':
         mods = LEAN_MODULES + ([GEN_MODULE] if gen_ok else [])      # a Gen module that failed has no olean
         rc, out = core._run(['lake', 'env', 'leanchecker'] + mods, cwd=core.LEAN)
         ctx.oblige('leanchecker ' + ' '.join(mods), rc == 0, 'kernel-recheck', out)
-    model_check(ctx, progs)
+    model_check(ctx, progs + deeps)
     from harness.props import c20_selftest
     c20_selftest.run(ctx, core, X)
+    exact_fragment(ctx)
+    guard_idiom(ctx)
     injections(ctx, progs)
+    real_readspec(ctx, progs, deeps)
     sequences(ctx, progs)
+    pairs(ctx, progs)
 
 
 def replay(ctx, case):
@@ -696,7 +1145,13 @@ def replay(ctx, case):
     p = [q for q in progs if q['func'] == case['func']][0]
     try:
         st = Stream(ctx, p)
-        if 'seq' in case:
+        if 'seq' in case and len({c['func'] for c in case['seq']}) > 1:
+            by = {q['func']: q for q in progs}
+            streams = {f: Stream(ctx, q) for f, q in by.items()}
+            res = run_mixed(ctx, streams, by, [(c['func'], c['variant'], c['init'], c.get('inject')) for c in case['seq']])
+            for s_ in streams.values():
+                s_.flush()
+        elif 'seq' in case:
             res = run_sequence(ctx, st, p, [(c['variant'], c['init'], c.get('inject')) for c in case['seq']])
         else:
             R.MON.start(R.codes_for(p['func'], p['tr'].inlined if p['tr'] else (), reload=True))
